@@ -120,7 +120,16 @@ def handle (j : Json) : Except String Json := do
       | .error e => throw s!"desc: {e.cls}: {e.msg}"
     let p ← Sv.parsePackageLossless pkg
     let m ← Sv.parseModuleLossless top
-    let n ← Net.ofSv p m
+    let n ← match Net.ofSv p m with
+      | .ok n => pure n
+      | .error e =>
+        -- the netlist view cannot be built (e.g. `id_t` comes out of a macro): what C11 can still decide
+        -- from the parsed package alone is whether the invoked macros exist
+        let mf := C11.macroFindings Gen.hwFacts p
+        if props.contains "C11" && !mf.isEmpty then
+          return Json.mkObj [("ok", true), ("findings", Json.mkObj [("C11", Json.arr (mf.map findingJson).toArray)]),
+                             ("model", Json.null), ("holds", Json.mkObj [])]
+        else throw e
     let res := props.map fun pid =>
       if pid == "C12" then (pid, Json.arr ((C12.check Gen.hwFacts pkg top d n).map findingJson).toArray) else
       match checkers.find? (·.1 == pid) with
